@@ -23,7 +23,8 @@ TRUSTED = [
     "(taken from the real functions with an empty known-answer set; C03's subject), as is the cache entry of each record at assembly time",
     "wire encoding of names and rdata is C01's subject: C11 decodes the emitted datagrams with the library's own `DNSIncoming` and, for the "
     "header id/flags and the class field, reads the raw bytes",
-    "sockets are simulated (one IPv4, optionally one IPv6 transport per host); OS-level routing of the datagram is not exercised",
+    "sockets are simulated (one to three transports of either family per host); OS-level routing of the datagram is not exercised: that a query "
+    "arrives on a socket of its source address's family is the hypothesis `World.SameFamily` of the socket-level theorems",
 ]
 ASSUMPTIONS = ["integer-millisecond clock",
                "one flowinfo/scope id per link-local peer address within a scenario (two peers with the same address text on different scopes are not generated)",
@@ -110,6 +111,35 @@ def run_fmt_stream(ctx, res):
                             ident, us, wid, flags, qd, classes[0]), cases[-1])
                     if not unicast and (wid != 0 or flags != 0x8400 or qd != 0 or (classes[0] >= 0x8000) != r.unique):
                         res.violate("C11:multicast-format", "construct_outgoing_multicast_answers: id %d flags %#x qd %d class %#x" % (wid, flags, qd, classes[0]), cases[-1])
+    # a reply too large for one datagram: 40 services' worth of TXT (300 bytes each) + SRV as additionals; every datagram of the split
+    # is judged (id, flags, question section only where the echo puts it, flush bits) and compared byte for byte with the model
+    big = []
+    for i in range(40):
+        nm = "svc%02d._a._tcp.local." % i
+        big.append((d.DNSText(nm, k._TYPE_TXT, k._CLASS_IN | k._CLASS_UNIQUE, 4500, bytes([255]) + bytes([97 + i % 26]) * 255 + b"\x2b" + b"x" * 43),
+                    d.DNSService(nm, k._TYPE_SRV, k._CLASS_IN | k._CLASS_UNIQUE, 120, 0, 0, 8000 + i, "h%02d.local." % i)))
+    big.append((d.DNSPointer("_a._tcp.local.", k._TYPE_PTR, k._CLASS_IN, 4500, "svc00._a._tcp.local."), None))
+    answers = {a: ({b} if b is not None else set()) for a, b in big}
+    for unicast in (True, False):
+        ident = 0x4242
+        out = construct_outgoing_unicast_answers(answers, True, [q], ident) if unicast else construct_outgoing_multicast_answers(answers)
+        pk = out.packets()
+        lines.append(bytes_line(unicast, True, ident, [(q.name, q.type, q.class_, q.unique)], [a for a, _n in out.answers], list(out.additionals)))
+        exp.append("ok " + " ".join(C.hx(x) for x in pk))
+        cases.append(dict(stream="fmt", constructor="unicast" if unicast else "multicast", multicast=not unicast, ucast_source=True, id=ident,
+                          rec="%d answers" % len(answers), bytes=True, datagrams=len(pk)))
+        res.count("fmt:split-reply-datagrams", len(pk))
+        nq = 0
+        for x in pk:
+            wid, flags, qd, classes, m_ = raw_classes(x)
+            nq += qd
+            types = [r.type for r in m_.answers()]
+            if unicast and (wid != ident or flags != 0x8400 or any(c >= 0x8000 for c in classes)):
+                res.violate("C11:unicast-format", "a datagram of a split unicast reply has id %d flags %#x classes %s" % (wid, flags, classes[:4]), cases[-1])
+            if not unicast and (wid != 0 or flags != 0x8400 or qd != 0 or any((c >= 0x8000) != (t != k._TYPE_PTR) for c, t in zip(classes, types))):
+                res.violate("C11:multicast-format", "a datagram of a split multicast reply has id %d flags %#x qd %d" % (wid, flags, qd), cases[-1])
+        if unicast and nq != 1:
+            res.violate("C11:question-echo", "a split unicast reply to a legacy source echoes %d questions in total, the query had 1" % nq, cases[-1])
     model = None
     if ctx["driver_ok"]:
         try:
@@ -707,6 +737,8 @@ def run(ctx):
     res.rule = ("fmt: every record kind x class with/without top bit x multicast/unicast x ids {0,1,0xabcd,65535}; send: socket family x 6 address spellings; "
                 "tr: responder scenarios (1..3 services, TTLs 1..4500 s; socket layouts {4, 46, 64, 44, 446}, queries received on any one socket; 1..6 queries of 1..4 questions, QU/QM per "
                 "question, +/- authority section, any id, source ports {5353, 40000, 1, 65535, 5354}, cache pokes at ttl/4 -1/0/+1 ms and around 1 s); "
+                "per datagram compared with the model: socket, complete destination sockaddr (IPv6 flowinfo / scope id), id, flags, question section, raw class field of "
+                "every record (c11net), and the bytes (c11bytes: reply constructor + C01's encoder model); "
                 "non-trivial = distinct (port class, probe, QU/QM pattern, sockets, receiving family, kinds of datagrams emitted) with at least one reply")
     bt = C.Budget(ctx["tier"], 1500, 30000).n
     if ctx["widened"]:
